@@ -463,9 +463,10 @@ fn main() {
             let name = a[2].as_str();
             let fam = gen::FAMILIES.iter().find(|f| f.name == name).unwrap_or_else(|| panic!("no such family"));
             let budget = opt("--budget", u64::MAX);
-            let seed = opt("--seed", 1);
+            // the generators read the scale from the upper half of their argument: fold a 64-bit seed into the lower half
+            let seed = { let s = opt("--seed", 1); (s ^ (s >> 32)) & 0xffff_ffff };
             let max_report = opt("--max-report", 5);
-            let scale = opt("--scale", 1);
+            let scale = opt("--scale", 1).clamp(1, 64);
             let all_kinds = a.iter().any(|x| x == "--all-kinds");   // development: validate the oracle on every aspect
             let (mut n, mut m) = (0u64, 0u64);
             let mut kinds: Vec<&'static str> = vec![];
